@@ -17,7 +17,7 @@ from __future__ import annotations
 import random
 
 from .. import gen as G
-from ..facts import V, analyze, entry_name, final_failure_candidates, pre_aborted, rejected
+from ..facts import V, analyze, entry_name, feq, final_failure_candidates, pre_aborted, rejected
 from . import common
 
 ID = "C11"
@@ -166,7 +166,7 @@ def oracle(scn, trace):
                 bad.extend(alternatives[0])
             sched = last is not None and last.decision == "D"
             if sched:
-                if o["next_sleep_s"] is None or o["next_sleep_s"] != last.applied:
+                if o["next_sleep_s"] is None or not feq(o["next_sleep_s"], last.applied):
                     bad.append(f"next_sleep_s {o['next_sleep_s']} != deferred delay {last.applied}")
                 if o["stop_reason"] != "SCHEDULED":
                     bad.append("deferred run not SCHEDULED")
